@@ -9,6 +9,9 @@ package loader
 import (
 	"context"
 	"net"
+	"time"
+
+	dto "github.com/prometheus/client_model/go"
 
 	tq "github.com/facebookincubator/tacquito"
 	"github.com/facebookincubator/tacquito/cmds/server/config"
@@ -279,3 +282,61 @@ type vpAddrConn struct {
 }
 
 func (c vpAddrConn) RemoteAddr() net.Addr { return c.remote }
+
+// ---------------------------------------------------------------- C16, consumer side
+
+// vpLookup2 publishes two configurations one after the other and then asks for remote.
+func vpLookup2(w *vpWorld, cfg1, cfg2 config.ServerConfig, remote net.Addr) ([]byte, tq.Handler, error) {
+	ch := make(chan config.ServerConfig, 2)
+	w.ld.unmarshaled = vpUnmarshaled{ch}
+	w.ld.query = make(chan queryGet, 1)
+	w.ld.warm = make(chan struct{})
+	q := queryGet{ctx: context.Background(), remote: remote, cb: make(chan secretProvider, 1)}
+	if vpSymbolic() {
+		ch <- cfg1
+		ch <- cfg2
+		w.ld.query <- q
+		vpGo(func() { w.ld.updates() })
+	} else {
+		n0 := vpBuildUpdates()
+		go w.ld.updates()
+		ch <- cfg1
+		ch <- cfg2
+		for vpBuildUpdates() < n0+2 {
+			time.Sleep(time.Millisecond)
+		}
+		w.ld.query <- q
+	}
+	sp := <-q.cb
+	return sp.secret, sp.handler, sp.err
+}
+
+// number of configuration rebuilds the loader has performed (native side only)
+func vpBuildUpdates() int {
+	var m dto.Metric
+	if err := buildUpdate.Write(&m); err != nil {
+		return 0
+	}
+	return int(m.GetCounter().GetValue())
+}
+
+// A lookup after a reload answers exactly like a lookup on a loader that only ever saw the new
+// configuration (filters and scopes removed from the file are gone).
+// c = first configuration (0..5) * 6 + second configuration
+func vpH_C16_consumer__36(c int) {
+	adm1, adm2 := vpAdmissionCorpus(c/6), vpAdmissionCorpus(c%6)
+	ip := vpBytesN(4)
+	remote := &net.TCPAddr{IP: net.IP(ip), Port: 40000}
+	w := vpNewWorld()
+	s1, h1, e1 := vpLookup2(w, adm1.config(), adm2.config(), remote)
+	f := vpNewWorld()
+	s2, h2, e2 := vpLookup(f, adm2.config(), remote)
+	served1 := e1 == nil && s1 != nil && h1 != nil
+	served2 := e2 == nil && s2 != nil && h2 != nil
+	vpAssert(served1 == served2, "C16.consumer.admission-after-reload-equals-fresh")
+	if served1 && served2 {
+		vpReach("C16.consumer.served")
+		vpAssert(string(s1) == string(s2), "C16.consumer.secret-after-reload-equals-fresh")
+	}
+	vpReach("C16.consumer.end")
+}
